@@ -444,6 +444,7 @@ class FShm:
         elif name not in seg:
             raise FileNotFoundError(name)
         self._name, self._seg = name, seg[name]
+        _rt_register(name)
         self.size = self._seg.size
         self._mmap = mmap.mmap(self._seg.fd, self.size)
         self.buf = memoryview(self._mmap)
@@ -464,6 +465,7 @@ class FShm:
             raise FileNotFoundError(self._name)
         del K.segments[self._name]
         K.seg_virtual.pop(self._name, None)
+        _rt_unregister(self._name)       # SharedMemory.unlink() unregisters the name from the caller's tracker
         emit("shm_unlink", self._name)
         K.step("shm.unlink", self._name)
 
@@ -473,6 +475,36 @@ class FShm:
                 self._mmap.close()
         except Exception:  # noqa
             pass
+
+
+# multiprocessing.resource_tracker, modelled only where a harness asks for it (K.cfg["rtracker"]; DESIGN section 12): on CPython 3.12
+# every SharedMemory - created or attached - is registered with the calling process's tracker, which unlinks whatever is still
+# registered when that process goes away.  One tracker per process: the processes concerned are forked before their parent ever
+# touched shared memory, so each starts its own on first use.
+def _rt_register(name):
+    if K.cfg.get("rtracker"):
+        p = K.cur().proc
+        if not hasattr(p, "rt_names"):
+            p.rt_names = set()
+        p.rt_names.add(name)
+
+
+def _rt_unregister(name, rtype=None):
+    if K is not None and K.cfg.get("rtracker"):
+        getattr(K.cur().proc, "rt_names", set()).discard(str(name).lstrip("/"))
+
+
+def rt_flush(proc):
+    """The process is gone (exit or kill): its tracker cleans up what it still had registered."""
+    for name in sorted(getattr(proc, "rt_names", ())):
+        if name in K.segments:
+            del K.segments[name]
+            K.seg_virtual.pop(name, None)
+            K.probe("resource_tracker_unlinked_leaked_segment")
+            K.log("rt.unlink", proc.name, name)
+            emit("shm_unlink", name)
+    if hasattr(proc, "rt_names"):
+        proc.rt_names.clear()
 
 
 def segments_total():
@@ -826,7 +858,7 @@ def install():
         def __new__(cls, *a, **kw):
             return FShm(*a, **kw) if insim() else real_shm(*a, **kw)
     msm.SharedMemory = ShmDisp
-    rt.unregister = disp(rt.unregister, lambda *a: None)
+    rt.unregister = disp(rt.unregister, _rt_unregister)
 
     real_tpe = cf.ThreadPoolExecutor
 
